@@ -241,15 +241,46 @@ def _guard_by_cases(rd: Reader, width: int):
     nonempty = tm.call(tm.glob("builtins.len"), (rd.raw,), ())
     out = []
     for L in (width - 1, width, width + 1):
+        env = _case_env(rd, L)
+        vals = [tm.fold(e.live, env) for e in raises]
+        if any(v is True for v in vals):
+            out.append(True)
+        elif all(v is False for v in vals):
+            out.append(False)
+        else:
+            return None
+    return tuple(out)
+
+
+def _case_env(rd: Reader, L: int):
+    """truth assignment for the world 'non-empty file, every row has L
+    fields, no conversion error'"""
+    first_len = tm.call(tm.glob("builtins.len"),
+                        (tm.sub(rd.raw, const(0)),), ())
+    nonempty = tm.call(tm.glob("builtins.len"), (rd.raw,), ())
+    if True:
         def env(a, L=L):
             if a is rd.raw:
                 return True
             if a.op == "exc":
                 return False      # no conversion error: the shape guards only
+            if is_call_to(a, "builtins.any", "builtins.all") and \
+                    len(a.args[1]) == 1:
+                # a test of every row: in the file considered here all rows
+                # have the same number of fields as the first one
+                g_ = Interp.unname(a.args[1][0])
+                if g_.op == "comp" and len(g_.args[2]) == 1 and \
+                        not g_.args[3] and g_.args[2][0][0] is rd.raw:
+                    return tm.fold(g_.args[1], lambda z: env(z, L))
+                return None
             if a.op == "cmp":
                 def val(t):
                     if t is first_len:
                         return L
+                    if is_call_to(t, "builtins.len") and len(t.args[1]) == 1 \
+                            and t.args[1][0].op == "elem" and \
+                            t.args[1][0].args[0] is rd.raw:
+                        return L          # any row of that file
                     if t is nonempty:
                         return 5
                     if tm.is_const(t) and isinstance(tm.const_val(t), int):
@@ -261,14 +292,7 @@ def _guard_by_cases(rd: Reader, width: int):
                             "GtE": x >= y, "Eq": x == y,
                             "NotEq": x != y}.get(a.args[0])
             return None
-        vals = [tm.fold(e.live, env) for e in raises]
-        if any(v is True for v in vals):
-            out.append(True)
-        elif all(v is False for v in vals):
-            out.append(False)
-        else:
-            return None
-    return tuple(out)
+        return env
 
 
 FLIPPED = {"Eq": "Eq", "NotEq": "NotEq", "Lt": "Gt", "Gt": "Lt",
@@ -364,7 +388,24 @@ def check(ctx):
                f"{(g[0], g[1]) if g else 'missing'}, the format has "
                f"{'exactly' if grel == 'NotEq' else 'at least'} {gconst} "
                f"columns", key=f"C07.5:{name}:column-guard")
-        if g is not None:
+        if g is not None and g[2] is None:
+            # the guard was decided by cases (several statements, a test of
+            # every row ...): the conversion must be unreachable in the
+            # wrong-width worlds and for an empty table
+            wrong = (gconst - 1, gconst + 1) if grel == "NotEq" else \
+                (gconst - 1,)
+            guarded = all(tm.fold(c.live, _case_env(rd, L_)) is False
+                          for c in rd.conv for L_ in wrong)
+            empty_guarded = all(tm.fold(
+                c.live, lambda t: False if t is rd.raw else None) is False
+                for c in rd.conv)
+            okf = guarded and empty_guarded and bool(rd.conv)
+            ctx.ob("C07.5", rd.f, okf,
+                   f"{name}: empty input and wrong column count are refused "
+                   f"before the conversion" if okf else
+                   f"{name}: the conversion is reachable for empty input or "
+                   f"a wrong column count", key=f"C07.5:{name}:guard-first")
+        elif g is not None:
             _, _, ge, ga, gbad = g
             empt = any(a is rd.raw or (a.op == "not" and a.args[0] is rd.raw)
                        for a in tm.atoms(ge.live)) or any(
